@@ -673,6 +673,16 @@ fn sweep(w: &mut NdjsonWriter, full: bool) {
         [0, 0, 1, 0, 1, 0, 0, 1],
         [1, 0, 0, 0, 0, 0, 0, 0],
     ];
+    // the documented call of known finding C07-orchard-outputs-after-nu63 (and its pre-NU6.3 twin)
+    for target_h in [350u32, 150] {
+        w.emit(&record(&Req {
+            rule_kind: 0, m: 5000, g: 2, pin: 150, pout: 34, multi: false, split_single: false, target: 1, min_split: 0,
+            notes: -1, meta_var: 0, act: 0, thr: None, fallback: 0, memo: false, eph: None, target_h, nu5_h: 100,
+            nu63_h: Some(200), anchor_h: 143, interval: 144, ov_kind: if target_h >= 200 { 2 } else { 1 }, sap_type: 0,
+            tin: vec![], tout: vec![], sin: vec![50_000], sout: vec![], oin: vec![100_000], oout: vec![60_000],
+            iin: vec![], iout: vec![],
+        }));
+    }
     for (pi, pat) in patterns.iter().enumerate() {
         for act in 0..3u8 {
             for thr in [None, Some(12_000u64)] {
